@@ -49,3 +49,11 @@ contract("C06.reset_column_mapper", file="hed/models/tabular_input.py", func="Ta
                   "self._mapper is not None and ((sidecar is None and self._sidecar is None and self._mapper.built_from is None)"
                   " or (sidecar is not None and self._sidecar is sidecar and self._mapper.built_from is sidecar))"},
          assume=["only the Sidecar-object (or None) form of the argument is covered"])
+
+# C06 "gives the same answer every time it is asked, and changes neither the table nor the sidecar": assemble() keeps no state on the input
+# object (a remembered answer would survive later edits of the table)
+_cm("BaseInputState", {"_dataframe": "Opaque", "_mapper": "Opaque", "_sidecar": "Opaque"})
+contract("C06.assemble_keeps_no_state", file="hed/models/base_input.py", func="BaseInput.assemble",
+         params={"self": "BaseInputState", "mapper": "Opaque", "skip_curly_braces": "Opaque"}, returns="Opaque", enc="native",
+         self_class="BaseInputState", unwind="havoc", ghost={"pure": True}, ensures={},
+         assume=["table values are pandas objects (opaque); the clause is the frame: no attribute of the input object is written"])
